@@ -74,7 +74,7 @@ func (ex *Exec) toJSON(sb *bytes.Buffer, v Value, t types.Type) {
 		return
 	case StrV:
 		if x.B != nil {
-			panic(abortf("json.Marshal of a symbolic string"))
+			panic(abortf("json.Marshal of a symbolic string value"))
 		}
 		b, _ := json.Marshal(x.S)
 		sb.Write(b)
@@ -96,7 +96,7 @@ func (ex *Exec) toJSON(sb *bytes.Buffer, v Value, t types.Type) {
 			}
 			ks, ok := concreteString(e.K)
 			if !ok {
-				panic(abortf("json.Marshal of a map with non-string or symbolic keys"))
+				panic(symJSON{})
 			}
 			kvs = append(kvs, kv{ks, e.V})
 		}
@@ -196,6 +196,7 @@ func (ex *Exec) toJSON(sb *bytes.Buffer, v Value, t types.Type) {
 }
 
 type goJSONErr struct{ msg string }
+type symJSON struct{}
 
 func (ex *Exec) jsonEmpty(v Value) bool {
 	switch x := v.(type) {
@@ -402,6 +403,11 @@ func init() {
 					handled = true
 					return
 				}
+				if _, ok := r.(symJSON); ok {
+					res = TupleV{ex.symJSONMap(iv), IfaceV{}}
+					handled = true
+					return
+				}
 				panic(r)
 			}
 		}()
@@ -445,4 +451,51 @@ func init() {
 		ex.noteAssume("encoding/json.Marshal/Unmarshal are a native model on concrete values (reflection is not executed symbolically)")
 		return IfaceV{}, true
 	})
+}
+
+// symJSONMap renders map[string]any with symbolic key bytes under the assumption that the symbolic bytes
+// need no JSON escaping (true for every key validateProps accepts); single-entry maps only.
+func (ex *Exec) symJSONMap(iv IfaceV) SliceV {
+	m, ok := iv.V.(MapV)
+	if !ok || m.M == nil || m.M.N != 1 {
+		panic(abortf("json.Marshal with symbolic keys: only single-entry maps are modelled"))
+	}
+	var out []*Term
+	lit := func(s string) {
+		for i := 0; i < len(s); i++ {
+			out = append(out, ex.ts.BVConst(8, uint64(s[i])))
+		}
+	}
+	for _, e := range m.M.Ent {
+		if e.Dead {
+			continue
+		}
+		k := e.K.(StrV)
+		lit("{\"")
+		for _, b := range ex.strBytes(k) {
+			if !b.IsConst() {
+				ts := ex.ts
+				plain := ts.And(ts.BvCmp(OBvULe, ts.BVConst(8, 0x20), b), ts.BvCmp(OBvULt, b, ts.BVConst(8, 0x7f)))
+				for _, c := range []byte{'"', '\\', '<', '>', '&'} {
+					plain = ts.And(plain, ts.Not(ts.Eq(b, ts.BVConst(8, uint64(c)))))
+				}
+				if ex.check(plain) == Unsat {
+					panic(pathPruned{"symbolic JSON key needs escaping"})
+				}
+				ex.noteAssume("JSON model: symbolic map-key bytes are assumed to need no escaping")
+				ex.addPCOnce(plain)
+			}
+			out = append(out, b)
+		}
+		lit("\":")
+		var sb bytes.Buffer
+		ex.toJSON(&sb, e.V, m.M.ValT)
+		lit(sb.String())
+		lit("}")
+	}
+	a := ex.newAgg(len(out))
+	for i, t := range out {
+		a.E[i] = t
+	}
+	return SliceV{A: a, Len: len(out), Cap: len(out), NonNil: true}
 }
